@@ -91,6 +91,15 @@ CLAIMED = {
                      'one item per \\item holding the text up to the next \\item, nested lists inside their item, terms attached.',
                 note='A rule between two rows may be recorded on either adjacent border. longtable/tabularx/booktabs, nested tabulars and wider tables are outside the claim.',
                 ref='DESIGN.md section 5 C10'),
+    'C11': dict(level='model_checking',
+                text='Verbatim: bodies of <= 3 (thorough 4) ARBITRARY symbolic characters, and one symbolic character before/after every proper prefix of \\end{verbatim} (partial end '
+                     'markers are feasible branches by construction), starred form, comment/ligature-like body: the content equals the characters between the delimiters, text after '
+                     'it is processed normally, the context stack is restored; \\verb with a symbolic delimiter (any printable non-letter) and symbolic body, starred and not; math: '
+                     '38 formula skeletons (scripts, nested fractions, roots, control words before letters, user macros as unbraced arguments, boxes, relations) with symbolic letters '
+                     'in $ $, \\( \\), \\[ \\], equation: node.source re-lexed by the real tokenizer equals token for token, blanks aside, what was written with user macros expanded.',
+                note='Two symbolic kernels are chained (source reconstruction, then the lexer of C01). Arrays inside formulas and image rendering are outside the claim; bodies containing '
+                     'the complete end delimiter are excluded as the property says.',
+                ref='DESIGN.md section 5 C11'),
     'C15': dict(level='model_checking',
                 text='Bounded exhaustive over request histories of the real generator through its call interface: 7 templates of the documented grammar x histories of 2-4 '
                      '(thorough 4-6) requests x every presence pattern of the bindings (symbolic booleans) x ALL binding values of bounded length over {a,b,blank,/} (symbolic: '
